@@ -253,3 +253,57 @@ def in_loop(ctx, fn, node):
             return True
         p = ctx.prog.parent.get(p)
     return False
+
+
+# ---------------------------------------------------------------------- symbolic trace over the CFG
+class Undetermined(Exception):
+    pass
+
+
+def trace(g, start, atom, stop=(), iter_decide=None, maxsteps=400):
+    """Follow the CFG from `start`, deciding each test with eval3 over `atom`.
+
+    Returns (visited nodes in order, terminal) where terminal is 'exit' | 'xexit' | 'stop' | 'loop'.
+    Raises Undetermined when a test cannot be decided from the atoms.
+    """
+    seen = []
+    n = start
+    steps = 0
+    stop = set(stop)
+    while True:
+        steps += 1
+        if steps > maxsteps:
+            raise Undetermined("trace too long")
+        if n is g.exit:
+            return seen, "exit"
+        if n is g.xexit:
+            return seen, "xexit"
+        if n in stop and seen:
+            return seen, "stop"
+        if n in seen and n.kind in ("test", "iter"):
+            return seen, "loop"
+        seen.append(n)
+        if n.kind == "test":
+            t = test_expr(n)
+            v = eval3(t, atom)
+            if v is None:
+                raise Undetermined("cannot decide: %s" % norm(t))
+            nxt = succ_by_label(n, "true" if v else "false")
+            if not nxt:
+                # `while True` has no false edge
+                raise Undetermined("no %s edge at %s" % (v, norm(t)))
+            n = nxt[0]
+            continue
+        if n.kind == "iter":
+            take = iter_decide(n) if iter_decide else False
+            nxt = succ_by_label(n, "iter" if take else "done")
+            if not nxt:
+                raise Undetermined("loop without exit")
+            n = nxt[0]
+            continue
+        normal = [s for s, lab in n.succ if lab not in ("exc",)]
+        if not normal:
+            return seen, "xexit"
+        if len(normal) > 1:
+            raise Undetermined("ambiguous successor at %r" % n)
+        n = normal[0]
